@@ -15,7 +15,8 @@ Record dom := mk_dom {
   dtop : dD -> bool;                (* is_top *)
   dub : dD -> dD -> dD;             (* upper_bound_assign *)
   dmeet : dD -> dD -> dD;           (* meet_assign *)
-  dube : dD -> dD -> option dD      (* upper_bound_assign_if_exact *)
+  dube : dD -> dD -> option dD;     (* upper_bound_assign_if_exact *)
+  dsc : dD -> dD -> bool            (* strictly_contains *)
 }.
 
 Record laws (d : dom) : Prop := mk_laws {
@@ -24,7 +25,8 @@ Record laws (d : dom) : Prop := mk_laws {
   l_top : forall a, dtop d a = true -> forall p, dden d a p;
   l_ub : forall a b p, dden d a p \/ dden d b p -> dden d (dub d a b) p;
   l_meet : forall a b p, dden d (dmeet d a b) p <-> dden d a p /\ dden d b p;
-  l_ube : forall a b u, dube d a b = Some u -> forall p, dden d u p <-> dden d a p \/ dden d b p
+  l_ube : forall a b u, dube d a b = Some u -> forall p, dden d u p <-> dden d a p \/ dden d b p;
+  l_sc : forall a b, dsc d a b = true -> forall p, dden d b p -> dden d a p
 }.
 Definition bot_complete (d : dom) : Prop := forall a, (forall p, ~ dden d a p) -> dbot d a = true.
 
@@ -46,6 +48,11 @@ Definition IsBottom (d : dom) h (s : Ps d) := is_bottom_ps (dD d) (dent d) (dbot
 Definition IsTop (d : dom) h (s : Ps d) := is_top_ps (dD d) (dent d) (dbot d) (dub d) (dtop d) h s.
 Definition MapAssign (d : dom) f keep : Ps d -> Ps d := map_assign (dD d) f keep.
 Definition PairwiseReduce (d : dom) h : Ps d -> Ps d := pairwise_reduce (dD d) (dent d) (dbot d) (dub d) (dube d) h.
+Definition StrictlyContains (d : dom) h (x y : Ps d) := strictly_contains_ps (dD d) (dent d) (dbot d) (dub d) (dsc d) h x y.
+(* topological_closure_assign / fold_space_dimensions as they are since /repo fd3faff, e7857d0: the
+   base-level operation mapped over the disjuncts, `reduced' cleared *)
+Definition ClosureAssign (d : dom) (closure : dD d -> dD d) : Ps d -> Ps d := MapAssign d closure false.
+Definition FoldAssign (d : dom) (fold : dD d -> dD d) : Ps d -> Ps d := MapAssign d fold false.
 Definition CheckReduced (d : dom) (s : Ps d) : bool := check_omega_reduced (dD d) (dent d) (dbot d) s.
 
 Section Thms.
@@ -98,6 +105,22 @@ Proof. apply map_keep_wf. Qed.
 Theorem T_pairwise_reduce_union s p : Den d (PairwiseReduce d never s) p <-> Den d s p.
 Proof. apply pairwise_reduce_union; apply L. Qed.
 
+Theorem T_strictly_contains_sound x y : snd (StrictlyContains d never x y) = true -> forall p, Den d y p -> Den d x p.
+Proof. apply strictly_contains_sound; apply L. Qed.
+Theorem T_strictly_contains_states x y p :
+  (Den d (fst (fst (StrictlyContains d never x y))) p <-> Den d x p) /\
+  (Den d (snd (fst (StrictlyContains d never x y))) p <-> Den d y p).
+Proof. apply strictly_contains_states; apply L. Qed.
+Theorem T_strictly_contains_reduces_both x y : Wf d x -> Wf d y ->
+  Really_reduced d (fst (fst (StrictlyContains d never x y))) /\ Really_reduced d (snd (fst (StrictlyContains d never x y))).
+Proof.
+  intros Wx Wy. unfold StrictlyContains, strictly_contains_ps. cbn [fst snd].
+  split; [apply (T_omega_reduce_reduced x Wx)|apply (T_omega_reduce_reduced y Wy)].
+Qed.
+(* closure and fold (as fixed): the flag tells the truth afterwards, and they act on the union disjunct-wise *)
+Theorem T_closure_fold_flag_truth cl s : Wf d (ClosureAssign d cl s) /\ Wf d (FoldAssign d cl s).
+Proof. split; apply map_reset_wf. Qed.
+
 (* flag truth: every modelled operation returns a state whose flag, when set, tells the truth *)
 Theorem T_flag_truth :
   (forall s, Wf d s -> Wf d (Omega d never s)) /\
@@ -133,7 +156,8 @@ Definition fs_dom : dom := {|
   dtop := fun _ => false;
   dub := fun a b => a ++ b;
   dmeet := fun a b => filter (fun x => fs_mem x b) a;
-  dube := fun a b => Some (a ++ b)
+  dube := fun a b => Some (a ++ b);
+  dsc := fun a b => forallb (fun x => fs_mem x a) b && negb (forallb (fun x => fs_mem x b) a)
 |}.
 
 Lemma fs_mem_ok x a : fs_mem x a = true <-> In x a.
@@ -152,6 +176,7 @@ Proof.
   - intros a b p H. apply in_or_app. exact H.
   - intros a b p. rewrite filter_In, fs_mem_ok. tauto.
   - intros a b u [= <-] p. rewrite in_app_iff. tauto.
+  - intros a b H p Hp. apply andb_true_iff in H. destruct H as [H _]. rewrite forallb_forall in H. apply fs_mem_ok. now apply H.
 Qed.
 
 Example fs_bot_complete : bot_complete fs_dom.
@@ -173,12 +198,14 @@ Proof.
 Qed.
 
 (* ------------------------------------------------------------------------------------------ *)
-(* Counter-model: an operation that maps every disjunct through an extensive, monotone, idempotent
-   function (like topological closure) but leaves the `reduced' flag untouched can make the flag lie.
-   Pointset_Powerset::topological_closure_assign and fold_space_dimensions have this shape. *)
+(* Why the reset in ClosureAssign / FoldAssign is necessary: an operation that maps every disjunct
+   through an extensive, monotone, idempotent function (like topological closure) but leaves the
+   `reduced' flag untouched can make the flag lie.  This was the behaviour of
+   Pointset_Powerset::topological_closure_assign and fold_space_dimensions before /repo fd3faff and
+   e7857d0; the check reports a tree that reverts them (corpus/C09/mut-7.diff). *)
 Definition fs_close (a : list nat) : list nat := if fs_mem 1 a || fs_mem 2 a then a ++ [1; 2] else a.
 
-Theorem keep_flag_after_closure_refuted :
+Theorem keeping_flag_for_closure_is_wrong :
   exists (s : Ps fs_dom),
     (forall a p, dden fs_dom a p -> dden fs_dom (fs_close a) p) /\        (* extensive *)
     Wf fs_dom s /\ Flag fs_dom s = true /\
